@@ -43,7 +43,7 @@ ALPHABET = [
     ("scale:toggle", 1), ("scale:same", 0), ("scale:invalid", 0),
     ("detrend:toggle", 1), ("detrend:same", 0), ("detrend:invalid", 0),
     ("window:diff", 1), ("window:same", 0), ("window:invalid", 0), ("window:alias", 0),
-    ("lag:diff", 1), ("lag:same", 0), ("lag:out", 1),
+    ("lag:diff", 1), ("lag:same", 0), ("lag:out", 1), ("lag:any", 0),
     ("ar_order:diff", 1), ("ar_order:same", 0), ("ar_order:neg", 0), ("ar_order:big", 1), ("ar_order:none", 0),
     ("ar_order:zero", 0), ("ma_order:zero", 0), ("data:const", 0),
     ("ma_order:diff", 1), ("ma_order:same", 0), ("ma_order:neg", 0), ("ma_order:none", 0),
@@ -56,7 +56,7 @@ ALPHABET = [
 ]
 ALPHA_NAMES = [a for a, _ in ALPHABET]
 CORE_NAMES = [a for a, c in ALPHABET if c]
-FAULTY = {"ar_order:zero", "ma_order:zero", "data:const", "sides:invalid", "NFFT:invalid", "NFFT:lt", "scale:invalid", "detrend:invalid", "window:invalid",
+FAULTY = {"lag:any", "ar_order:zero", "ma_order:zero", "data:const", "sides:invalid", "NFFT:invalid", "NFFT:lt", "scale:invalid", "detrend:invalid", "window:invalid",
           "lag:out", "ar_order:neg", "ar_order:big", "ma_order:neg", "ma_order:none", "ar_order:none"}
 MODES = ("fault_free", "natural", "injected", "mixed")
 
@@ -148,6 +148,19 @@ def gen_const(rng, cls, N):
         c["NW"] = rng.choice([2.0, 2.5, 3.0])
         c["k"] = rng.choice([None, None, 3, 4])
         c["method"] = rng.choice(["adapt", "unity", "eigen"])
+        if rng.random() < 0.3:
+            # tapers and eigenvalues supplied by the caller (computed once with the package's own dpss)
+            try:
+                sp = sut.load()
+                k = c["k"] or int(2 * c["NW"])
+                v, e = sp.mtm.dpss(N, c["NW"], k)
+                c["e"] = [float(x) for x in np.asarray(e).ravel()]
+                c["v"] = [[float(x) for x in row] for row in np.asarray(v)]
+            except Exception:
+                pass
+    elif cls == "pcorrelogram":
+        if rng.random() < 0.25:
+            c["data_y"] = enc_data(gen_signal(rng, N, rng.random() < 0.5))
     return c
 
 
@@ -745,6 +758,8 @@ def concretize(aname, rng, run):
         cur = p.lag
         if vc == "out":
             return {"op": "set", "attr": "lag", "value": N + rng.randrange(0, 4)}
+        if vc == "any":
+            return {"op": "set", "attr": "lag", "value": rng.randrange(1, max(2, N))}   # may exceed what NFFT can hold
         if cls == "parma":
             lo = (p.ar_order or 0) + (p.ma_order or 0) + 1
             cands = [v for v in range(lo, max(lo + 2, min(N - 1, lo + 12))) if v != cur]
